@@ -166,17 +166,18 @@ func ArmTarName(n string) bool {
 // ArmReaderKinds names the reader kinds of ArmOpen, by index.
 var ArmReaderKinds = []string{
 	"bytes.Reader", // 0
-	"(n, io.EOF) on a full read reaching the end",     // 1
-	"bytes.Reader after Read of 8 bytes",              // 2
-	"bytes.Reader after reading everything",           // 3
-	"bytes.Reader after Seek to the end",              // 4
-	"strings.Reader",                                  // 5
-	"strings.Reader after Read of 8 bytes",            // 6
-	"strings.Reader after reading everything",         // 7
-	"io.SectionReader at base 13 of a larger buffer",  // 8
-	"*os.File with its offset moved",                  // 9
-	"reader whose Len()/Size() methods say 7 less",    // 10
-	"reader whose Len()/Size() methods say 1000 more", // 11
+	"(n, io.EOF) on a full read reaching the end",               // 1
+	"bytes.Reader after Read of 8 bytes",                        // 2
+	"bytes.Reader after reading everything",                     // 3
+	"bytes.Reader after Seek to the end",                        // 4
+	"strings.Reader",                                            // 5
+	"strings.Reader after Read of 8 bytes",                      // 6
+	"strings.Reader after reading everything",                   // 7
+	"io.SectionReader at base 13 of a larger buffer",            // 8
+	"*os.File with its offset moved",                            // 9
+	"reader whose Len()/Size() methods say 7 less",              // 10
+	"reader whose Len()/Size() methods say 1000 more",           // 11
+	"io.SectionReader at base 0, a valid member behind its end", // 12
 }
 
 // ArmReaderFeature is the input feature of a reader kind ("" for the plain bytes.Reader).
@@ -188,8 +189,8 @@ func ArmReaderFeature(kind int) string {
 		return "reader-position-consumed"
 	case 5:
 		return "strings-reader"
-	case 8:
-		return "section-reader-nonzero-base"
+	case 8, 12:
+		return "section-reader-shorter-than-its-source"
 	case 9:
 		return "os-file-offset-moved"
 	case 10, 11:
@@ -232,9 +233,16 @@ func ArmOpen(b []byte, k int) (io.ReaderAt, func()) {
 			io.Copy(io.Discard, r)
 		}
 		return r, nop
-	case 8:
-		big := append(append([]byte("thirteen-byte"), b...), []byte("!<arch>\ntrailing bytes of the larger buffer")...)
-		return io.NewSectionReader(bytes.NewReader(big), 13, int64(len(b))), nop
+	case 8, 12:
+		// the section ends where the archive ends; what follows it in the underlying reader is itself a well-formed
+		// member (as when an archive is nested inside a member of an outer archive, with another member after it)
+		behind := ArmBuild([]ArmMember{{Name: "behind", TS: "9", UID: "9", GID: "9", Mode: "644", Data: []byte("not part of the section")}})[len(ArmGlobalMagic):]
+		pre := []byte("thirteen-byte")
+		if k == 12 {
+			pre = nil
+		}
+		big := append(append(append([]byte(nil), pre...), b...), behind...)
+		return io.NewSectionReader(bytes.NewReader(big), int64(len(pre)), int64(len(b))), nop
 	case 9:
 		f, err := os.CreateTemp("", "armfile")
 		if err != nil {
